@@ -1783,6 +1783,30 @@ pub fn f17() -> Vec<Case> {
     out
 }
 
+/// F18: a FUNCTION has no instance. A function that is called from a function-block body or a
+/// method calls a global function whose name is also a method of that function block / reads a
+/// name that is also a member of it: the function's own scope decides (outcome class only).
+pub fn f18() -> Vec<Case> {
+    let mut out = Vec::new();
+    let global_helper = "FUNCTION Helper : DINT\nVAR_INPUT a : DINT; END_VAR\n    Helper := a + 1;\nEND_FUNCTION\n";
+    let outer = "FUNCTION Outer : DINT\nVAR_INPUT v : DINT; END_VAR\n    Outer := Helper(v) * 2;\nEND_FUNCTION\n";
+    for from in ["fb-body", "method"] {
+        let fb = if from == "fb-body" {
+            "FUNCTION_BLOCK Fb1\nVAR_OUTPUT q : DINT; END_VAR\nMETHOD PUBLIC Helper : DINT\nVAR_INPUT a : DINT; b : DINT; END_VAR\n    Helper := a - b;\nEND_METHOD\n    q := Outer(DINT#1);\nEND_FUNCTION_BLOCK\n"
+        } else {
+            "FUNCTION_BLOCK Fb1\nVAR_OUTPUT q : DINT; END_VAR\nMETHOD PUBLIC Helper : DINT\nVAR_INPUT a : DINT; b : DINT; END_VAR\n    Helper := a - b;\nEND_METHOD\nMETHOD PUBLIC Run : DINT\n    Run := Outer(DINT#1);\nEND_METHOD\n    q := Run();\nEND_FUNCTION_BLOCK\n"
+        };
+        let text = format!("{global_helper}{outer}{fb}PROGRAM Main\nVAR f : Fb1; r : DINT; END_VAR\n    f();\n    r := f.q;\nEND_PROGRAM\n");
+        out.push(raw("F18", &format!("function-scope:global-function-named-like-caller-method:from-{from}"), &text, 2));
+    }
+    // a function's local named like a member of the calling FB
+    {
+        let text = "FUNCTION Twice : DINT\nVAR_INPUT v : DINT; END_VAR\nVAR level : DINT; END_VAR\n    level := v * 2;\n    Twice := level;\nEND_FUNCTION\nFUNCTION_BLOCK Fb2\nVAR level : DINT := DINT#7; END_VAR\nVAR_OUTPUT q : DINT; END_VAR\n    q := Twice(level) + level;\nEND_FUNCTION_BLOCK\nPROGRAM Main\nVAR f : Fb2; r : DINT; END_VAR\n    f();\n    r := f.q;\nEND_PROGRAM\n";
+        out.push(raw("F18", "function-scope:local-named-like-caller-member", text, 2));
+    }
+    out
+}
+
 pub fn corpus(thorough: bool) -> Vec<Case> {
     let mut out = Vec::new();
     out.extend(f2());
@@ -1803,6 +1827,7 @@ pub fn corpus(thorough: bool) -> Vec<Case> {
     out.extend(f6p());
     out.extend(f3r());
     out.extend(f17());
+    out.extend(f18());
     out.extend(super::stdlib::cases(thorough));
     out.extend(super::oop::cases(thorough));
     out
